@@ -535,7 +535,12 @@ def run(repo, chk):
     fpi = facts_of(pi)
     chk.ob("R18.3", "probe.Probe.__init__:every-selector-compiled", fpi.has("self._selectors = [select(s, env=env) for s in selectors]", when=["selectors"]), pi.where,
            "every selector string is compiled when the probe is created")
-    chk.ob("R18.3", "probe.Probe.__init__:every-selector-gets-a-rule", fpi.mentions("[self._make_rule(sel, probe_type) for sel in self._selectors]"), pi.where,
+    stored = [expand(n.value, pi.node) for n in walk_local(pi.node) if isinstance(n, ast.Assign) and len(n.targets) == 1 and norm(n.targets[0]) == "self._selectors"]
+    ruled = [n for n in walk_local(pi.node) if isinstance(n, (ast.ListComp, ast.GeneratorExp)) and len(n.generators) == 1 and not n.generators[0].ifs
+             and isinstance(n.elt, ast.Call) and norm(n.elt.func) == "self._make_rule" and n.elt.args and isinstance(n.generators[0].target, ast.Name)
+             and is_name(n.elt.args[0], n.generators[0].target.id)
+             and expand(n.generators[0].iter, pi.node) in ["self._selectors"] + stored]
+    chk.ob("R18.3", "probe.Probe.__init__:every-selector-gets-a-rule", len(stored) == 1 and len(ruled) == 1, pi.where,
            "every compiled selector goes through _make_rule (focus checks) at construction")
     me = repo.func("probe.Probe._make_emitter")
     fme = facts_of(me)
